@@ -77,15 +77,25 @@ def run_case(case):
     ncols = rng.randint(1, 6)
     header = rng.sample(['alpha', 'b', 'C', 'delta', 'e1', 'Ünï', 'g h'], ncols)
     hclass = 'unique'
+    dedup_fmt = None
     if fam == 'dup_headers' and ncols >= 2:
-        hclass = rng.choice(['exact', 'case', 'triple', 'many', 'two_groups'])
+        hclass = rng.choice(['exact', 'case', 'triple', 'many', 'two_groups', 'collides_generated'])
+        if hclass == 'collides_generated' and ncols >= 3:
+            # a unique header that already looks like a name de-duplication would generate
+            dedup_fmt = rng.choice([' (%s)', ' (%s)', '_%s'])
+            header[1] = header[0]
+            header[2] = header[0] + dedup_fmt % rng.choice([1, 2])
+        elif hclass == 'collides_generated':
+            hclass = 'exact'
         if hclass == 'many' and ncols >= 4:
             header = [header[0]] * ncols if rng.random() < 0.5 else [header[0]] * (ncols - 1) + [header[-1]]
         elif hclass == 'two_groups' and ncols >= 5:
             header = [header[0], header[1]] * (ncols // 2) + ([header[2]] if ncols % 2 else [])
         elif hclass in ('many', 'two_groups'):
             hclass = 'exact'
-        if hclass == 'exact':
+        if hclass == 'collides_generated':
+            pass
+        elif hclass == 'exact':
             header[1] = header[0]
         elif hclass == 'case':
             header[0], header[1] = 'name', 'NAME'
@@ -159,6 +169,8 @@ def run_case(case):
             kw['deduplicate_headers'] = True
         if rng.random() < 0.5:
             kw['deduplicate_headers_case_sensitive'] = False
+        if dedup_fmt not in (None, ' (%s)'):
+            kw['deduplicate_headers_format'] = dedup_fmt
     cov['options']['delimiter/%r' % delim] = 1
     cfg = {'family': fam, 'header': header, 'nrows': nrows, 'lineterminator': lt, 'delimiter': delim,
            'header_class': hclass,
